@@ -298,7 +298,7 @@ pub fn run(ctx: &Ctx) -> i32 {
         salt: 0x0601_0000,
         nshards: 64,
         enumerated: &enumerated,
-        random_cases: tier.pick(400_000, 20_000_000),
+        random_cases: tier.pick(3_000_000, 60_000_000),
         build_random: &|e| build(e, &Force::default()),
         classify: &|c, j, t: &Tag, s| classify(c, j, t, s),
         all_quirks: false,
@@ -307,7 +307,7 @@ pub fn run(ctx: &Ctx) -> i32 {
     stats.exhaustive_subspaces.insert("TRAPA #1-3 x 256 CCR".into(), 3 * 256);
     stats.exhaustive_subspaces.insert("interrupt vectors 1-63 x 128 CCR values with I clear".into(), 63 * 128);
 
-    let nh: u32 = tier.pick(20_000, 1_000_000);
+    let nh: u32 = tier.pick(100_000, 2_000_000);
     let nshards = 32usize;
     let hstats = par_shards(ctx, nshards, |shard| {
         let w = Worker::new(ctx);
